@@ -116,6 +116,9 @@ type follower struct {
 
 	// The snapshot file to read when sending a snapshot to this node.
 	snapshot SnapshotFile
+
+	// The number of InstallSnapshot RPCs this node has answered in the current term.
+	snapshotResponses uint64
 }
 
 // Raft implements the raft consensus protocol.
@@ -1069,7 +1072,18 @@ func (r *Raft) sendAppendEntries(id string, address string, numResponses *int) {
 
 	// Send a snapshot instead if the follower log no longer contains the previous log entry.
 	if follower.nextIndex <= r.lastIncludedIndex {
+		snapshotResponses := follower.snapshotResponses
 		r.sendInstallSnapshot(id, address)
+
+		// A follower that answers a snapshot request recognizes this node as the leader just
+		// as one that answers a heartbeat does: a leader that is bringing a member up to date
+		// with a snapshot must not lose its lease and grant its vote to another node.
+		if follower.snapshotResponses != snapshotResponses && numResponses != nil && r.isVoter(id) {
+			*numResponses += 1
+			if r.hasQuorum(*numResponses) {
+				r.tryApplyReadOnlyOperations()
+			}
+		}
 		return
 	}
 
@@ -1757,6 +1771,11 @@ func (r *Raft) sendInstallSnapshot(id, address string) {
 	if response.Term > r.currentTerm {
 		r.becomeFollower(id, response.Term)
 		return
+	}
+
+	// The follower accepted the request as one from the leader of its term.
+	if request.Term == r.currentTerm && r.state == Leader {
+		follower.snapshotResponses++
 	}
 
 	// The follower is either missing part of the snapshot or already has this part.
